@@ -325,6 +325,9 @@ func (l *simLock) actionsLocked() []action {
 	}
 	for _, r := range l.parked {
 		r := r
+		if r.parkKey == panicPoint && !l.inst.dead {
+			continue // a process that died stays dead; the property crashes the node
+		}
 		acts = append(acts, action{kind: akResume, key: r.key() + "@" + r.parkKey, run: func() { l.resume(r) }})
 	}
 	return acts
